@@ -2275,13 +2275,18 @@ where
 
         let mut fragments = C::new();
 
+        // whether the current item has produced a value token
+        let mut item_has_value = false;
+
         for token in dataset {
             match token.context(ReadTokenSnafu)? {
                 DataToken::OffsetTable(table) => {
                     offset_table = Some(table);
+                    item_has_value = true;
                 }
                 DataToken::ItemValue(data) => {
                     fragments.push(data);
+                    item_has_value = true;
                 }
                 DataToken::ItemEnd => {
                     // at the end of the first item ensure the presence of
@@ -2289,9 +2294,15 @@ where
                     // are seen as compressed fragments
                     if offset_table.is_none() {
                         offset_table = Some(Vec::new())
+                    } else if !item_has_value {
+                        // a zero-length item after the offset table
+                        // is an empty fragment
+                        fragments.push(Vec::new());
                     }
                 }
-                DataToken::ItemStart { len: _ } => { /* no-op */ }
+                DataToken::ItemStart { len: _ } => {
+                    item_has_value = false;
+                }
                 DataToken::SequenceEnd => {
                     // end of pixel data
                     break;
